@@ -16,6 +16,7 @@ fn main() {
         prop, env.tier, env.seed, env.threads
     );
     let code = match prop.as_str() {
+        "C04" => props::c04::run(&env),
         "C07" => props::c07::run(&env),
         "C11" => props::c11::run(&env),
         "C16" => props::c16::run(&env),
